@@ -163,6 +163,7 @@ pub fn judge(exp: &Expect, obs: &RObs, pos: usize) -> Result<Option<usize>, (Str
     match obs {
         RObs::Panic(m) => return bad("panic", format!("expected {:?}, panicked: {}", exp, m)),
         RObs::Unsupported => return Ok(None),
+        RObs::Damaged(m) => return bad("bytes", m.clone()),
         _ => {}
     }
     match (exp, obs) {
@@ -253,6 +254,7 @@ pub fn replay_doc(info: &RdInfo, model: &RdModel, image: &[u8], ops: &[ROp]) -> 
         "image": hex(image), "len_bits": model.len(), "zx": model.zx, "limit": model.limit,
         "tables_ok": model.tables_ok,
         "ops": ops,
+        "io_align": crate::util::io_align(),
     })
 }
 
@@ -416,6 +418,7 @@ pub fn replay(doc: &Value) -> (Vec<String>, bool) {
     let image = crate::util::unhex(doc["image"].as_str().unwrap());
     let ops: Vec<ROp> = serde_json::from_value(doc["ops"].clone()).unwrap();
     let tables_ok: [bool; 3] = serde_json::from_value(doc["tables_ok"].clone()).unwrap();
+    crate::util::set_io_align(doc.get("io_align").and_then(|a| a.as_u64()).map(|a| a as u8));
     let model = RdModel {
         bits: Bits::from_bytes(&image, e),
         e,
